@@ -1,6 +1,7 @@
 //! `srv <json>`: drive the real `lsp::server::Server` in-process over an in-memory transport.
 //! {"dir": abs dir for on-disk files, "disk": {rel: text}, "script": [...], "timeout_ms": n}
 //! script steps: ["open", rel, text] | ["change", rel, text] | ["close", rel] | ["req", id, kind, rel, a, b, c, d] | ["idle"]
+//! optional "caps": "full" (initialize with an editor's full capability set; default: empty capabilities)
 //! Answer: {"msgs": [...], "timeout": bool, "unanswered": [ids]}
 use std::sync::{Arc, Mutex};
 use std::time::{Duration, Instant};
@@ -32,6 +33,42 @@ async fn recv(r: &mut (impl AsyncReadExt + Unpin)) -> Option<Value> {
     let mut buf = vec![0u8; n];
     r.read_exact(&mut buf).await.ok()?;
     serde_json::from_slice(&buf).ok()
+}
+
+struct Tx(tokio::sync::mpsc::UnboundedSender<Value>);
+impl Tx {
+    fn send(&self, v: Value) {
+        let _ = self.0.send(v);
+    }
+}
+
+/// what a current editor announces (every `refreshSupport`, progress, configuration, dynamic registration ...)
+fn full_capabilities() -> Value {
+    json!({
+        "workspace": {"applyEdit": true, "workspaceEdit": {"documentChanges": true, "resourceOperations": ["create", "rename", "delete"]},
+            "configuration": true, "workspaceFolders": true, "didChangeConfiguration": {"dynamicRegistration": true},
+            "didChangeWatchedFiles": {"dynamicRegistration": true, "relativePatternSupport": true},
+            "symbol": {"dynamicRegistration": true}, "executeCommand": {"dynamicRegistration": true},
+            "semanticTokens": {"refreshSupport": true}, "codeLens": {"refreshSupport": true}, "inlayHint": {"refreshSupport": true},
+            "inlineValue": {"refreshSupport": true}, "diagnostics": {"refreshSupport": true}, "foldingRange": {"refreshSupport": true},
+            "fileOperations": {"dynamicRegistration": true, "didCreate": true, "didRename": true, "didDelete": true}},
+        "textDocument": {
+            "publishDiagnostics": {"relatedInformation": true, "versionSupport": true, "tagSupport": {"valueSet": [1, 2]}, "codeDescriptionSupport": true, "dataSupport": true},
+            "synchronization": {"dynamicRegistration": true, "willSave": true, "willSaveWaitUntil": true, "didSave": true},
+            "completion": {"dynamicRegistration": true, "contextSupport": true, "completionItem": {"snippetSupport": true, "commitCharactersSupport": true,
+                "documentationFormat": ["markdown", "plaintext"], "deprecatedSupport": true, "preselectSupport": true, "insertReplaceSupport": true, "labelDetailsSupport": true},
+                "completionList": {"itemDefaults": ["commitCharacters", "editRange", "insertTextFormat", "insertTextMode", "data"]}},
+            "hover": {"dynamicRegistration": true, "contentFormat": ["markdown", "plaintext"]},
+            "definition": {"dynamicRegistration": true, "linkSupport": true}, "references": {"dynamicRegistration": true},
+            "documentSymbol": {"dynamicRegistration": true, "hierarchicalDocumentSymbolSupport": true, "labelSupport": true},
+            "foldingRange": {"dynamicRegistration": true, "rangeLimit": 5000, "lineFoldingOnly": true, "foldingRangeKind": {"valueSet": ["comment", "imports", "region"]}},
+            "documentLink": {"dynamicRegistration": true, "tooltipSupport": true},
+            "inlayHint": {"dynamicRegistration": true, "resolveSupport": {"properties": ["tooltip", "textEdits", "label.tooltip", "label.location", "label.command"]}},
+            "diagnostic": {"dynamicRegistration": true, "relatedDocumentSupport": false}},
+        "window": {"showMessage": {"messageActionItem": {"additionalPropertiesSupport": true}}, "showDocument": {"support": true}, "workDoneProgress": true},
+        "general": {"staleRequestSupport": {"cancel": true, "retryOnContentModified": []}, "positionEncodings": ["utf-16"],
+            "regularExpressions": {"engine": "ECMAScript", "version": "ES2020"}, "markdown": {"parser": "marked", "version": "1.1.0"}}
+    })
 }
 
 fn uri(dir: &str, rel: &str) -> String {
@@ -98,6 +135,8 @@ pub fn run(rest: &str) -> String {
     std::env::remove_var("INCLUDE_DIR");
     let timeout = Duration::from_millis(spec["timeout_ms"].as_u64().unwrap_or(4000));
     let script: Vec<Value> = spec["script"].as_array().cloned().unwrap_or_default();
+    // "caps": "full" -> initialize as a current editor does (all capabilities announced); the client answers server requests either way
+    let full_caps = spec["caps"].as_str() == Some("full");
     // "jitter": seed -> snapshot tasks are delayed pseudo-randomly at their schedule points (older tasks may
     // be overtaken by younger ones wherever the server itself does not order them)
     #[cfg(feature = "verif")]
@@ -138,16 +177,39 @@ pub fn run(rest: &str) -> String {
         tokio::spawn(async move {
             let _ = mainloop.run_buffered(c2s_r.compat(), s2c_w.compat_write()).await;
         });
-        let mut w = c2s_w;
+        // one writer task owns the client's end; the script and the collector (which answers the server's own requests,
+        // as a conforming client does) both queue their messages here
+        let (tx, mut rx) = tokio::sync::mpsc::unbounded_channel::<Value>();
+        let mut cw = c2s_w;
+        tokio::spawn(async move {
+            while let Some(v) = rx.recv().await {
+                send(&mut cw, v).await;
+            }
+        });
+        let w = Tx(tx.clone());
         let mut r = s2c_r;
         let collected = msgs2.clone();
+        let answer_tx = tx.clone();
         tokio::spawn(async move {
             while let Some(v) = recv(&mut r).await {
+                if v.get("method").is_some() {
+                    if let Some(id) = v.get("id") {
+                        let _ = answer_tx.send(json!({"jsonrpc":"2.0","id": id, "result": null}));
+                    }
+                }
                 collected.lock().unwrap().push(v);
             }
         });
-        send(&mut w, json!({"jsonrpc":"2.0","id":"init","method":"initialize","params":{"capabilities":{}}})).await;
-        send(&mut w, json!({"jsonrpc":"2.0","method":"initialized","params":{}})).await;
+        let caps = if full_caps { full_capabilities() } else { json!({}) };
+        let init_params = if full_caps {
+            json!({"processId": 4242, "clientInfo": {"name": "Visual Studio Code", "version": "1.93.0"}, "locale": "en",
+                   "rootPath": dir2.clone(), "rootUri": format!("file://{}", dir2), "capabilities": caps, "trace": "off",
+                   "workspaceFolders": [{"uri": format!("file://{}", dir2), "name": "ws"}]})
+        } else {
+            json!({"capabilities": caps})
+        };
+        w.send(json!({"jsonrpc":"2.0","id":"init","method":"initialize","params":init_params}));
+        w.send(json!({"jsonrpc":"2.0","method":"initialized","params":{}}));
         // versions as editors send them: 1 at didOpen (again after a close), +1 per didChange
         let mut versions: std::collections::HashMap<String, i64> = std::collections::HashMap::new();
         let mut expected: Vec<Value> = Vec::new();
@@ -156,13 +218,13 @@ pub fn run(rest: &str) -> String {
         for step in &script {
             match step[0].as_str().unwrap_or("") {
                 "open" => {
-                    send(&mut w, json!({"jsonrpc":"2.0","method":"textDocument/didOpen","params":{"textDocument":{
-                        "uri": uri(&dir2, step[1].as_str().unwrap_or("")), "languageId":"tablegen","version":1,"text": step[2]}}})).await;
+                    w.send(json!({"jsonrpc":"2.0","method":"textDocument/didOpen","params":{"textDocument":{
+                        "uri": uri(&dir2, step[1].as_str().unwrap_or("")), "languageId":"tablegen","version":1,"text": step[2]}}}));
                     versions.insert(step[1].as_str().unwrap_or("").to_string(), 1);
                 }
                 "close" => {
-                    send(&mut w, json!({"jsonrpc":"2.0","method":"textDocument/didClose","params":{"textDocument":{
-                        "uri": uri(&dir2, step[1].as_str().unwrap_or(""))}}})).await;
+                    w.send(json!({"jsonrpc":"2.0","method":"textDocument/didClose","params":{"textDocument":{
+                        "uri": uri(&dir2, step[1].as_str().unwrap_or(""))}}}));
                 }
                 "change" => {
                     let version = {
@@ -170,31 +232,31 @@ pub fn run(rest: &str) -> String {
                         *v += 1;
                         *v
                     };
-                    send(&mut w, json!({"jsonrpc":"2.0","method":"textDocument/didChange","params":{"textDocument":{
-                        "uri": uri(&dir2, step[1].as_str().unwrap_or("")), "version":version},"contentChanges":content_changes(&step[2])}})).await;
+                    w.send(json!({"jsonrpc":"2.0","method":"textDocument/didChange","params":{"textDocument":{
+                        "uri": uri(&dir2, step[1].as_str().unwrap_or("")), "version":version},"contentChanges":content_changes(&step[2])}}));
                 }
                 "req" => {
                     expected.push(step[1].clone());
-                    send(&mut w, request(&dir2, step)).await;
+                    w.send(request(&dir2, step));
                 }
                 // a document named by a literal URI (not necessarily a file below the session directory)
                 "openuri" => {
-                    send(&mut w, json!({"jsonrpc":"2.0","method":"textDocument/didOpen","params":{"textDocument":{
-                        "uri": step[1], "languageId":"tablegen","version":1,"text": step[2]}}})).await;
+                    w.send(json!({"jsonrpc":"2.0","method":"textDocument/didOpen","params":{"textDocument":{
+                        "uri": step[1], "languageId":"tablegen","version":1,"text": step[2]}}}));
                 }
                 "changeuri" => {
-                    send(&mut w, json!({"jsonrpc":"2.0","method":"textDocument/didChange","params":{"textDocument":{
-                        "uri": step[1], "version":2},"contentChanges":content_changes(&step[2])}})).await;
+                    w.send(json!({"jsonrpc":"2.0","method":"textDocument/didChange","params":{"textDocument":{
+                        "uri": step[1], "version":2},"contentChanges":content_changes(&step[2])}}));
                 }
                 // any notification / request, parameters as given (`$DIR` in strings is replaced by the session directory URI)
                 "notify" => {
                     let params: Value = serde_json::from_str(&step[2].to_string().replace("$DIR", &format!("file://{}", dir2))).unwrap_or(Value::Null);
-                    send(&mut w, json!({"jsonrpc":"2.0","method": step[1], "params": params})).await;
+                    w.send(json!({"jsonrpc":"2.0","method": step[1], "params": params}));
                 }
                 "reqraw" => {
                     expected.push(step[1].clone());
                     let params: Value = serde_json::from_str(&step[3].to_string().replace("$DIR", &format!("file://{}", dir2))).unwrap_or(Value::Null);
-                    send(&mut w, json!({"jsonrpc":"2.0","id": step[1], "method": step[2], "params": params})).await;
+                    w.send(json!({"jsonrpc":"2.0","id": step[1], "method": step[2], "params": params}));
                 }
                 "idle" => {
                     if !wait_idle(&msgs2, &expected, base, timeout).await {
